@@ -2,7 +2,7 @@
    [fb] = the tree copies the whole snapshot for a retransmission (true, after the fix: commit) or passes
    it through a fixed 2048-byte scratch buffer (false, the pinned tree: refuted below). *)
 From Coq Require Import NArith ZArith List Bool.
-From StunV Require Import Base.ListAux Base.Bytes Model.Agent Model.Client Proofs.ClientProofs Proofs.ClientInvProofs.
+From StunV Require Import Base.ListAux Base.Bytes Model.Agent Model.Client Proofs.ClientProofs Proofs.ClientInvProofs Proofs.ClientSyncProofs Proofs.ClientDeadlineProofs.
 Import ListNotations.
 Open Scope N_scope.
 
@@ -42,6 +42,42 @@ Print Assumptions C11_callback_cases.
 Theorem C11_set_rto_only_later : forall c r,
   c_T (c_set_rto c r) = c_T c /\ c_A (c_set_rto c r) = c_A c /\ c_rto (c_set_rto c r) = r.
 Proof. intros c r. repeat split. Qed.
+
+(* ---- timing ---- *)
+(* [dstate c lw]: besides the table invariants, every registered transaction sits in the agent with the
+   deadline  lw(instance) + (attempts so far + 1) * (the RTO captured at Start),  where the ghost [lw] is
+   the time of the instance's last write as read off the observations ([lw_run]).  It holds initially and
+   after every operation of every history (Start, responses, ticks, SetRTO, write failures, Close in all
+   its interleavings, foreign registrations). *)
+Theorem C11_deadline_invariant_initial : forall rto maxA cc fb lw, dstate (new_client rto maxA cc fb) lw.
+Proof. exact dstate_new. Qed.
+Theorem C11_deadline_invariant : forall fb tid_of ops c lw, dstate c lw ->
+  let '(c', tr) := c_run true fb tid_of c ops in dstate c' (lw_hist lw tr).
+Proof. exact run_dstate. Qed.
+Print Assumptions C11_deadline_invariant.
+
+(* hence, in a collector tick at time [now]: an instance is written only at [now], only with attempts
+   left, and only once the clock has passed (its previous write) + (k+1) * r; a timeout is reported only
+   when no attempt is left and that deadline has passed *)
+Theorem C11_tick_only_after_deadline : forall fb c lw now o, dstate c lw -> c_closed c = false ->
+  In o (snd (c_tick true fb c now)) ->
+  match o with
+  | OWrite i _ tm => tm = now /\ exists t, In t (c_T c) /\ t_inst t = i /\ t_attempt t < c_maxA c /\ (due t (lw i) < now)%Z
+  | OInvoke i _ HRTimeout => exists t, In t (c_T c) /\ t_inst t = i /\ c_maxA c <= t_attempt t /\ (due t (lw i) < now)%Z
+  | _ => True
+  end.
+Proof. exact tick_only_after_deadline. Qed.
+Print Assumptions C11_tick_only_after_deadline.
+
+(* non-vacuity: RTO 100, started at 0: a tick at 100 writes nothing (deadline not passed), a tick at 101
+   retransmits, the next deadline is 101 + 2*100 *)
+Example C11_timing_nonvacuous :
+  let c1 := fst (c_start (new_client 100 7 true None) 1 [1;2;3] (Some 5)) in
+  snd (c_tick true true c1 100) = [] /\
+  snd (c_tick true true c1 101) = [OWrite 0 [1;2;3] 101%Z] /\
+  snd (c_tick true true (fst (c_tick true true c1 101)) 301) = [] /\
+  snd (c_tick true true (fst (c_tick true true c1 101)) 302) = [OWrite 0 [1;2;3] 302%Z].
+Proof. vm_compute. repeat split. Qed.
 
 (* fixed defect, kept with its witness: on the pinned tree a retransmission of a request longer than
    2048 bytes carried only its first 2048 bytes *)
